@@ -30,8 +30,8 @@ CLAIMS = {
          "6.C08", "Transport stub per Appendix C; bodies <= 2 (6) bytes; the three segmentation defects found here (split3, coalesce, bigfrag) were repaired in 1717b2e and are now plain assertions; net/http's chunked reader is interpreted for the legacy IN body (VP_C08_legacy_chunks); gorilla's websocket framing is outside."),
  "C09": ("Lockset analysis over the executor's heap-access logs: handler threads of two tunnels and their relay goroutines (cooperative scheduler: goroutines switch where the running one blocks) - any pair of accesses to Tunnel/Gateway/registry/client-writer state from different threads with a write, no common sync.Mutex and no spawn order is a violation, replayed natively under the Go race detector.",
          "6.C09", "No schedule exploration: lockset is conservative for mutex discipline but blind to channel-based ordering; races inside gorilla/net/http/go-cache are outside; 2 websocket tunnels, one scenario shape."),
- "C10": ("Every implicit runtime panic on every explored path is an SMT obligation: protocol parsers and readHeader on arbitrary bytes, the Process step, legacy request orderings, the NTLM verifier on arbitrary messages and on adversarial security-buffer descriptors (real go-ntlm parser code interpreted), Authorization header slicing, KDC-proxy list merge and channel accounting.",
-         "6.C10", "setSendReceiveBuffers (reflect), net/http parsing, gorilla, gRPC, PAM (cmd/auth does not build here) and asn1 are outside; message lengths <= 24/28 bytes (NTLM), bodies <= 12/20 bytes (protocol)."),
+ "C10": ("Every implicit runtime panic on every explored path is an SMT obligation: protocol parsers and readHeader on arbitrary bytes, the Process step, legacy request orderings, the NTLM verifier on arbitrary messages and on adversarial security-buffer descriptors (real go-ntlm parser code interpreted), Authorization header slicing, KDC-proxy list merge and channel accounting, and the reflection walk of the socket-buffer tuning over *tls.Conn / *net.TCPConn / other connections (engine model of package reflect answered from the static types).",
+         "6.C10", "net/http parsing, gorilla, gRPC, PAM (cmd/auth does not build here) and asn1 are outside; message lengths <= 24/28 bytes (NTLM), bodies <= 12/20 bytes (protocol)."),
  "C11": ("handleWebsocketProtocol / the legacy handler pair run for 0..6 (8) set-up/data packets followed by each way the client side can end; ghost state at return: backend closed, both client transports closed, registry entry gone, gauges restored, and the relay goroutine terminates (cooperative scheduler; a goroutine left parked is a violation).",
          "6.C11", "Dial and backend are stubs; the handlers run over scripted transports, the real WSPKT/LegacyPKT Close over a modelled peer (VP_C11_transport_close); 'bounded time' is reduced to 'no goroutine left parked forever'; OS sockets and real scheduling are not observed."),
  "C12": ("HandleDownload, the Authenticated middleware, security.QueryInfo and the composition mint->tunnel checks executed symbolically: no token/file for unauthenticated sessions, host chosen per selection policy, token claims = host with user substituted / user without domain / address / access token, forced gateway settings, and acceptance of the issued host+token by CheckSession(CheckHost).",
